@@ -41,7 +41,7 @@ REACH = [("yamlpath/commands/yaml_get.py", "main,validateargs", "yaml_get.main")
          ("yamlpath/commands/yaml_validate.py", "main,process_file", "yaml_validate.main"),
          ("yamlpath/common/parsers.py", "get_yaml_data,get_yaml_multidoc_data,jsonify_yaml_data", "Parsers")]
 SIZES = {"quick": dict(cases=30000, sub=160), "thorough": dict(cases=250000, sub=1500)}
-REQUIRED_COUNTERS = ["get_docs_ending_in_block_scalar", "set_saveto_cases", "merge_one_multidoc_input_cases", "diff_scalar_root_cases", "get_cases", "set_cases", "merge_cases", "diff_cases", "validate_cases", "stdin_cases",
+REQUIRED_COUNTERS = ["validate_implicit_stdin_cases", "get_inherited_values_cases", "get_docs_ending_in_block_scalar", "set_saveto_cases", "merge_one_multidoc_input_cases", "diff_scalar_root_cases", "get_cases", "set_cases", "merge_cases", "diff_cases", "validate_cases", "stdin_cases",
                      "json_cases", "subprocess_cases"]
 
 
@@ -55,10 +55,23 @@ def pyval(n):
         return [pyval(e) for e in n]
     sp = yp.scalar_plain(n)
     if sp[0] == "date":
-        return sp[1]
+        return DATE
     if sp[0] == "float":
         return float(sp[1])
     return sp[1]
+
+
+DATE = "\x00date"      # JSON has no dates: they print as some text (which text is not the tools' contract)
+
+
+def jmatch(got, want):
+    if want == DATE:
+        return isinstance(got, str) and got[:2] in ("19", "20")
+    if isinstance(want, dict):
+        return isinstance(got, dict) and set(got.keys()) == set(want.keys()) and all(jmatch(got[k], want[k]) for k in want)
+    if isinstance(want, list):
+        return isinstance(got, list) and len(got) == len(want) and all(jmatch(a, b) for a, b in zip(got, want))
+    return type(got) is type(want) and got == want
 
 
 def jkey(k):
@@ -169,6 +182,17 @@ def case_get(ctx, rng, box, sub):
         path = gp.render(segs, sep)
     except ValueError:
         return
+    if rng.random() < 0.04:
+        # mappings that INHERIT values JSON cannot print as they are (dates, anchored Booleans, sets) through a YAML
+        # Merge Key whose source lies outside the printed sub-tree
+        inh = rng.sample(["created: 2020-01-02", "enabled: &e true", "off: &f false", "n: 1", "tags: !!set {x, y}",
+                          "when: 2001-12-14T21:59:43Z", "name: web", "ratio: 1.5"], rng.randrange(1, 5))
+        text = "base: &b\n%sservices:\n  web:\n    <<: *b\n    port: 80\n  db:\n    <<: [*b]\n    n: 2\n  plain: {k: 1}\n" % (
+            "".join("  %s\n" % x for x in inh))
+        data = yp.load(text)
+        path = rng.choice(["services.web", "/services/db", "services.*", "/services", "services.w*", "services.web.enabled", "**.port[parent()]"])
+        tail_block = "n/a"
+        ctx.counters["get_inherited_values_cases"] = ctx.counters.get("get_inherited_values_cases", 0) + 1
     if path.startswith("-"):
         return
     as_json = rng.random() < 0.2 and data is not None and jsonable(data) and tail_block is None
@@ -216,7 +240,7 @@ def case_get(ctx, rng, box, sub):
             continue
         if kind == "json":
             try:
-                ok = jnorm(json.loads(g)) == want
+                ok = jmatch(jnorm(json.loads(g)), want)
             except ValueError:
                 ok = False
         else:
@@ -516,6 +540,27 @@ def case_validate(ctx, rng, box, sub):
             truth = False
     case = {"tool": "yaml-validate", "files": ["".join("---\n" + d for d in ch) for ch in chunks]}
     via_stdin = len(files) == 1 and rng.random() < 0.3
+    if not via_stdin and rng.random() < 0.3:
+        # named files AND a waiting (non-TTY) STDIN that nobody mentioned: empty, valid or invalid - it is one more input
+        extra = rng.choice(["", "", "ok: 1\n", "---\na: [1]\n---\nb: 2\n", INVALID[rng.choice(sorted(INVALID))]])
+        try:
+            yp.load_all(extra)
+            extra_ok = True
+        except yp.LoadError:
+            extra_ok = False
+        case["implicit_stdin"] = extra
+        ctx.counters["validate_implicit_stdin_cases"] = ctx.counters.get("validate_implicit_stdin_cases", 0) + 1
+        r = cli.run("yaml_validate", list(files), stdin_text=extra)
+        ctx.evaluations += 1
+        ctx.mark_nontrivial(["validate", case["files"], "implicit", extra])
+        if r["exc"]:
+            ctx.violation("yaml-validate/crash", {"case": case, "summary": r["exc"][:200]})
+        elif valid and not truth:
+            pass
+        elif (r["code"] == 0) != (valid and truth and extra_ok):
+            ctx.violation("yaml-validate/exit-status/implicit-stdin", {"case": case, "summary": "exit %d ; the files %s, the waiting STDIN %s" % (
+                r["code"], "all load" if valid and truth else "do not all load", "loads" if extra_ok else "does not load")})
+        return
     if via_stdin:
         ctx.counters["stdin_cases"] = ctx.counters.get("stdin_cases", 0) + 1
         r = cli.run("yaml_validate", ["-"], stdin_text=open(files[0]).read())
